@@ -92,8 +92,20 @@ def _det(j):
 def main():
     jobs = generate_all()
     print("mutants", len(jobs), "functions", len({j[3] for j in jobs}), flush=True)
-    with ProcessPoolExecutor(max_workers=WORKERS) as ex:
-        dets = list(ex.map(_det, jobs, chunksize=4))
+    cache = os.environ.get("DET_CACHE")
+    if cache and os.path.exists(cache):
+        c = {tuple(k): (f, e) for k, f, e in json.load(open(cache))}
+        dets = [(j,) + tuple(c[(j[2], j[3], j[4])]) for j in jobs
+                if (j[2], j[3], j[4]) in c]
+    else:
+        with ProcessPoolExecutor(max_workers=WORKERS) as ex:
+            dets = list(ex.map(_det, jobs, chunksize=4))
+        if cache:
+            json.dump([((j[2], j[3], j[4]), f, e) for j, f, e in dets],
+                      open(cache, "w"))
+    if os.environ.get("DET_ONLY"):
+        print("detected", sum(1 for d in dets if d[1]))
+        return
     print("detected", sum(1 for d in dets if d[1]), "analysis-error",
           sum(1 for d in dets if not d[1] and d[2]), flush=True)
     base = run("/repo")
